@@ -439,6 +439,25 @@ def m_int_op_trait(ex, st, callee, args, dty, m):
     return ("__fork__", [(z3.Not(ov), val), (ov, PathEnd("panic", what))])
 
 
+# ---------------------------------------------------------------- Ordering::then / then_with
+@model(r"(?:std|core)::cmp::Ordering::then$")
+def m_ordering_then(ex, st, callee, args, dty, m):
+    a, b = args
+    da, db = ex.discr_of(a), ex.discr_of(b)
+    if not (isinstance(da, I) and isinstance(db, I)):
+        return NotImplemented
+    return EnumV("Ordering", None, I(z3.If(da.bv != 0, da.bv, db.bv), True))
+
+
+@model(r"(?:std|core)::cmp::Ordering::then_with::<.*>$")
+def m_ordering_then_with(ex, st, callee, args, dty, m):
+    a = args[0]
+    da = ex.discr_of(a)
+    if isinstance(da, I) and not ex.feasible(st.pc, da.bv == 0):
+        return a        # never Equal on this path: the closure is not called
+    return NotImplemented
+
+
 # ---------------------------------------------------------------- mem::swap / replace / take
 @model(r"(?:std|core)::mem::swap::<.*>$")
 def m_mem_swap(ex, st, callee, args, dty, m):
